@@ -7,6 +7,8 @@
 // goroutine until a harness lets it continue, K may terminate the process (crash-point injection).
 package vhook
 
+import "time"
+
 // Enabled tells whether the hooks are compiled in
 const Enabled = true
 
@@ -38,4 +40,15 @@ func K(point string) {
 	if f := Kill; f != nil {
 		f(point)
 	}
+}
+
+// Clock is installed by a verification harness to substitute the wall clock read by NowNano; nil otherwise
+var Clock func() int64
+
+// NowNano reads the wall clock in nanoseconds
+func NowNano() int64 {
+	if f := Clock; f != nil {
+		return f()
+	}
+	return time.Now().UnixNano()
 }
